@@ -1069,8 +1069,8 @@ def merge_mode_shapes(
             phi_rov_i_k = np.delete(
                 phi_i_k, ref_ind, axis=0
             )  # saave data from roving sensors
-            # Find scaling factor
-            alpha_i_k = MSF(phi_ref_1_k, phi_ref_i_k)
+            # Find scaling factor (scales setup i to the reference setup 1)
+            alpha_i_k = MSF(phi_ref_i_k, phi_ref_1_k)
             # Merge mode
             merged_mode_k = np.hstack((merged_mode_k, alpha_i_k * phi_rov_i_k))
 
